@@ -35,6 +35,7 @@ declare -A PLAN=(
  [C17-2]="C17:c17_tracking_start_end_pairs"
  [C18-1]="C18:bu_schedule_error_reported_when_task_already_scheduled"
  [C18-2]="C18:td_check_order_require_read_require,session_checker_error_then_recovery"
+ [C19-own-1]="C19:session_c19_first_build_aborted_in_nested_task"
  [C01-3]="C01:session_td_two_roots_share_a_dependency"
  [C09-3]="C09:session_td_two_roots_share_a_dependency"
  [C11-3]="C11:c11_query_pairs_pre12,c11_query_pairs_pre13"
